@@ -195,7 +195,7 @@ PROPS = {
              "was checked or a function was called through the seam. Distinct: hash of (tasks, configuration, executed schedule with jumps).",
         state_measure="distinct (zone offset, number of tasks, number of clock/zone dependent checks) triples",
         fault_kinds=["delegate_panic"],
-        probes=["clock_jump_inside_evaluation", "now_after_long_jump", "date_in_non_utc_zone", "date_in_dst_zone", "rnd_draws", "rnd_bulk_ops", "foreign_collection_customised", "delegate_panic", "seam_calls"] +
+        probes=["clock_jump_inside_evaluation", "now_after_long_jump", "date_in_non_utc_zone", "date_in_dst_zone", "now_within_two_hours_after_a_zone_transition", "rnd_draws", "rnd_bulk_ops", "foreign_collection_customised", "delegate_panic", "seam_calls"] +
                ["fn_" + n.lower() for n in ["Ticks", "TimeSpan", "Now", "Date", "DayOfWeek", "Min", "Max", "Sum", "If", "Choose", "E", "Pi", "Rnd", "Random",
                 "Abs", "Acos", "Asin", "Atan", "Exp", "Log", "Ln", "Log10", "Ceil", "Ceiling", "Floor", "Round", "Trunc", "Truncate", "Cos", "Sin", "Tan",
                 "Sqr", "Sqrt", "Empty", "Null", "Contains", "Array"]],
